@@ -217,6 +217,11 @@ func (s *Log) Nice(o TickOptions) {
 		return
 	}
 	firstN, lastN, base := s.spacingAtLevel(level, true)
+	if math.IsInf(base, 0) {
+		// No level really satisfies o (the tick count only
+		// dropped because the effective base overflowed).
+		return
+	}
 	s.Min = math.Pow(base, firstN)
 	s.Max = math.Pow(base, lastN)
 	if neg {
